@@ -3,7 +3,10 @@ package zzverif
 // Round-6 generator classes: each is the directed form of an input dimension that a seeded change of the sixth
 // round needed and the random classes produced too rarely.
 
-import "strconv"
+import (
+	"strconv"
+	"strings"
+)
 
 // genQueryDots: dot segments are a matter of the PATH (RFC 3986 §5.2.4, §6.2.2.3). In a query "/../" and "/./"
 // are data: "/list?dir=/pub/../private" is not "/list?dir=/private", and "/view?p=a/.." is not "/".
@@ -80,3 +83,49 @@ func (g *G) genOldLastModified(id string) *History {
 	}
 	return h
 }
+
+// genSelEquiv (fifth hunt): a response stored under a Vary on one of the content-negotiation fields, then the SAME
+// request in another spelling of the same value — member order, optional white space (also around the ";" of a
+// parameter, RFC 9110 §5.6.6), the documented aliases, one or several field lines. While the response is fresh the
+// second request is answered from the store (C09); a spelling of ANOTHER value is not (C04).
+func (g *G) genSelEquiv(id string) *History {
+	h := &History{ID: id, Prop: g.prop, Class: "sel-equiv", Backend: pick(g, "mem", "mem", "fs", "fsenc"), Logger: "discard"}
+	type grp struct {
+		field string
+		same  []string
+		other []string
+	}
+	gr := []grp{
+		{"Accept", []string{"text/plain;charset=utf-8", "text/plain ;charset=utf-8", "text/plain; charset=utf-8", "text/plain ; charset=utf-8"}, []string{"text/plain", "text/plain;charset=latin1"}},
+		{"Accept", []string{"text/x;a=1;b=2", "text/x ;b=2 ;a=1", "text/x; b=2; a=1", "text/x;b=2;a=1"}, []string{"text/x;a=1", "text/x;a=2;b=1"}},
+		{"Accept", []string{"text/html, application/json", "application/json,text/html", "application/json , text/html", "text/html|application/json"}, []string{"text/html", "application/json, text/xml"}},
+		{"Accept-Encoding", []string{"gzip, br", "br,gzip", "x-gzip, br", "br , x-gzip", "gzip|br"}, []string{"gzip", "br, deflate"}},
+		{"Accept-Encoding", []string{"gzip", "x-gzip", " gzip ", "gzip,"}, []string{"identity", "gzipx"}},
+		{"Accept-Language", []string{"de, en", "en,de", "en , de", "de|en"}, []string{"de", "en, fr"}},
+		{"Te", []string{"trailers, gzip", "gzip,trailers", "x-gzip, trailers"}, []string{"trailers"}},
+		{"Accept-Charset", []string{"utf-8, iso-8859-1", "iso-8859-1,utf-8"}, []string{"utf-8"}},
+	}[g.r.Intn(8)]
+	url := "http://a.test/sel"
+	hdrOf := func(v string) Hdr {
+		// "a|b" = two field lines
+		var out Hdr
+		for _, line := range splitBar(v) {
+			out = append(out, [2]string{gr.field, line})
+		}
+		return out
+	}
+	at := int64(0)
+	first := pick(g, gr.same...)
+	h.Ops = append(h.Ops, Op{Op: "req", AtNs: at, Method: "GET", URL: url, Hdr: hdrOf(first),
+		Replies: []Reply{{Status: 200, BodyFail: -1, Body: "v1", Hdr: Hdr{{"Date", dateAt(at, 0)}, {"Cache-Control", "max-age=600"}, {"Vary", pick(g, gr.field, gr.field, strings.ToLower(gr.field))}}}}})
+	at += pick(g, sec, 5*sec, 60*sec)
+	second := pick(g, gr.same...)
+	if g.chance(0.25) {
+		second = pick(g, gr.other...)
+	}
+	h.Ops = append(h.Ops, Op{Op: "req", AtNs: at, Method: "GET", URL: url, Hdr: hdrOf(second),
+		Replies: []Reply{{Status: 200, BodyFail: -1, Body: "v2", Hdr: Hdr{{"Date", dateAt(at, 0)}, {"Cache-Control", "max-age=600"}, {"Vary", gr.field}}}}})
+	return h
+}
+
+func splitBar(v string) []string { return strings.Split(v, "|") }
